@@ -28,6 +28,8 @@ pub enum CacheKind {
     ShortLife(u16),
     /// memory limit in bytes
     Tiny(u16),
+    /// lifetime ms (0 = default 30 s), memory limit bytes (0 = none), clean frequency ms
+    Custom(u16, u16, u16),
 }
 #[derive(Serialize, Deserialize, Clone, Copy, Debug, PartialEq, Eq, Hash)]
 pub enum ParKind {
@@ -55,6 +57,12 @@ pub fn manager<S: Database>(db: S, cache: CacheKind) -> StorageManager<S> {
             StorageManager::new(db, Some(Duration::from_millis(ms.max(2) as u64)), None, Some(Duration::from_millis(2)))
         }
         CacheKind::Tiny(bytes) => StorageManager::new(db, None, Some(bytes as usize), Some(Duration::from_millis(2))),
+        CacheKind::Custom(life, limit, clean) => StorageManager::new(
+            db,
+            if life == 0 { None } else { Some(Duration::from_millis(life.max(2) as u64)) },
+            if limit == 0 { None } else { Some(limit as usize) },
+            Some(Duration::from_millis(clean.max(2) as u64)),
+        ),
     }
 }
 
